@@ -107,7 +107,11 @@ type PKI struct {
 	ShadowCA      *CA
 	ClientShadow  KeyPair
 	ClientExpired KeyPair // signed by CA, expired
+	OldCA         *CA     // an unrelated further CA, listed before CA in bundles ("old and new CA during a rotation")
 }
+
+// Bundle is a CA option holding two certificates: an unrelated CA first, the real one second.
+func (p *PKI) Bundle() string { return p.OldCA.CertPEM + p.CA.CertPEM }
 
 var (
 	pkiOnce sync.Once
@@ -126,6 +130,7 @@ func GetPKI() *PKI {
 		p.ServerExpired = p.CA.Issue("localhost", names, ips, false, true)
 		p.ClientGood = p.CA.Issue("client", nil, nil, true, false)
 		p.ClientForeign = p.ForeignCA.Issue("client", nil, nil, true, false)
+		p.OldCA = NewCA("verif-old-ca")
 		p.ShadowCA = NewCA("verif-ca")
 		p.ClientShadow = p.ShadowCA.Issue("client", nil, nil, true, false)
 		p.ClientExpired = p.CA.Issue("client", nil, nil, true, true)
